@@ -22,7 +22,7 @@ STYLES = ["dnf", "cnf", "bdd", "redundant"]
 FORMATS = ["bnet", "aeon", "sbml"]
 # "api:<perm>": the network is declared through AEON's API with its variables in the given (unsorted) order - the text
 # parsers always sort the variables by name, so this is the only way to exercise "reordering their declarations"
-NASTY = ["a[", "a]", "a_", "_a_", "a{b}", "a.b", "A", "a"]
+NASTY = ["a[", "a]", "a_", "_a_", "a{b}", "a.b", "A", "a", "a\u03b2", "\u03ba"]  # incl. non-ASCII letters
 
 
 def transform(net, flips, scheme):
@@ -77,14 +77,20 @@ def text_of(net, style, fmt):
     bnet = "\n".join(lines)
     if fmt == "bnet":
         return bnet
-    if fmt == "aeon":
+    if fmt in ("aeon", "aeonfree"):
+        # "aeonfree": identity variables are written the way .aeon files write inputs: no update function, no self-regulation
+        free = [i for i in range(net.n) if fmt == "aeonfree" and net.tables[i] == net.VARMASK[i]
+                and any(net.depends(j, i) for j in range(net.n) if j != i)]
         out = []
         for i, nm in enumerate(net.names):
+            if i in free:
+                continue
             for j in range(net.n):
                 if net.depends(i, j):
                     out.append(f"{net.names[j]} -? {nm}")
         for i, nm in enumerate(net.names):
-            out.append(f"${nm}: {expr_of(net, i, style)}")
+            if i not in free:
+                out.append(f"${nm}: {expr_of(net, i, style)}")
         return "\n".join(out)
     from biodivine_aeon import BooleanNetwork
     return BooleanNetwork.from_bnet(bnet).to_sbml()
@@ -145,6 +151,22 @@ def permute_net(net, perm):
     return Net(names, tabs)
 
 
+def judge_attractors_only(net, sd, back):
+    out = []
+    mins = sorted(key(map_back_space(sd.node_data(i)["space"], back)) for i in sd.minimal_trap_spaces())
+    if mins != sorted(key(m) for m in net.min_traps):
+        out.append(("minimal-trap-spaces-differ", f"expand_scc: {mins}"))
+    hits = []
+    for i, seeds in sd.expanded_attractor_seeds().items():
+        for s in seeds:
+            o = map_back_space(s, back)
+            a = net.attractor_of(net.state_of(o)) if len(o) == net.n else None
+            hits.append(a)
+    if None in hits or sorted(hits) != sorted(net.attractors):
+        out.append(("attractors-differ", f"expand_scc: {len(hits)} seeds for {len(net.attractors)} attractors"))
+    return out
+
+
 def run_presentation(net, flips, scheme, style, fmt):
     from biobalm import SuccessionDiagram
     tnet, back = transform(net, flips, scheme)
@@ -158,10 +180,18 @@ def run_presentation(net, flips, scheme, style, fmt):
         sd2.build()
         return judge(net, sd1, sd2, back)
     text = text_of(tnet, style, fmt)
-    sd1 = SuccessionDiagram.from_rules(text, format=fmt)
+    lf = "aeon" if fmt == "aeonfree" else fmt
+    sd1 = SuccessionDiagram.from_rules(text, format=lf)
     sd1.expand_bfs()
-    sd2 = SuccessionDiagram.from_rules(text, format=fmt)
+    sd2 = SuccessionDiagram.from_rules(text, format=lf)
     sd2.build()
+    if fmt == "aeonfree":
+        # also the source-SCC strategy: it has its own detection of input variables
+        sd3 = SuccessionDiagram.from_rules(text, format=lf)
+        sd3.expand_scc()
+        out3 = judge_attractors_only(net, sd3, back)
+        if out3:
+            return out3
     out = judge(net, sd1, sd2, back)
     if not flips and scheme == "sorted":
         base = new_sd(net)
@@ -288,7 +318,7 @@ def presentations(net, full):
             for k in range(n + 1):
                 for flips in itertools.combinations(range(n), k):
                     for style in STYLES:
-                        for fmt in FORMATS:
+                        for fmt in FORMATS + (["aeonfree"] if style == "dnf" and not flips else []):
                             yield (flips, scheme, style, fmt)
                     for pm in perms:
                         yield (flips, scheme, "dnf", "api:" + pm)
@@ -303,7 +333,7 @@ def presentations(net, full):
         yield (tuple(range(n)), "reversed", "cnf", "aeon")
         for style in STYLES[1:]:
             yield ((), "sorted", style, "bnet")
-        for fmt in FORMATS[1:]:
+        for fmt in FORMATS[1:] + ["aeonfree"]:
             yield ((), "sorted", "dnf", fmt)
 
 
